@@ -291,7 +291,7 @@ pub fn c03(n: usize, start: usize, len: usize, deep: bool) -> Vec<Case> {
                     out.push(base(n, start, len, vec![Op::Drain(canonical(a, b), vec![Step::NextBack, t, Step::Next], End::Drop)]));
                 }
             }
-            for t in [Step::Count, Step::Last, Step::Fold, Step::RevCollect] {
+            for t in [Step::Count, Step::Last, Step::Fold, Step::RevCollect, Step::RFold, Step::RevLast] {
                 out.push(base(n, start, len, vec![Op::Drain(canonical(a, b), vec![t], End::Drop)]));
             }
         }
@@ -530,7 +530,7 @@ pub fn c08(n: usize, start: usize, len: usize) -> Vec<Case> {
             }
         }
         for pre in [vec![], vec![Step::Next], vec![Step::NextBack], vec![Step::Next, Step::NextBack, Step::Next]] {
-            for t in [Step::Count, Step::Last, Step::Fold, Step::RevCollect, Step::Dbg] {
+            for t in [Step::Count, Step::Last, Step::Fold, Step::RevCollect, Step::Dbg, Step::RFold, Step::RevLast] {
                 let mut s = pre.clone();
                 s.push(t);
                 s.push(Step::Next);
@@ -549,8 +549,9 @@ pub fn c08(n: usize, start: usize, len: usize) -> Vec<Case> {
             }
         }
     }
-    for t in [Step::Count, Step::Last, Step::Fold, Step::RevCollect, Step::Dbg] {
+    for t in [Step::Count, Step::Last, Step::Fold, Step::RevCollect, Step::Dbg, Step::RFold, Step::RevLast] {
         out.push(base(n, start, len, vec![Op::IntoIter(vec![Step::Next, t])]));
+        out.push(base(n, start, len, vec![Op::IntoIter(vec![Step::NextBack, t])]));
     }
     // clone / len at every point of a script
     for s in scripts_of_len(len.min(4)) {
@@ -599,7 +600,7 @@ pub fn c09(n: usize, start: usize, len: usize, end: End) -> Vec<Case> {
                             out.push(base(n, start, len, vec![Op::Drain(canonical(a, b), s, End::Drop)]));
                         }
                     }
-                    for t in [Step::Count, Step::Last, Step::Fold, Step::RevCollect] {
+                    for t in [Step::Count, Step::Last, Step::Fold, Step::RevCollect, Step::RFold, Step::RevLast] {
                         let mut s = pre.clone();
                         s.push(t);
                         out.push(base(n, start, len, vec![Op::Drain(canonical(a, b), s, End::Drop)]));
